@@ -277,19 +277,55 @@ def _r5(chk, repo):
 
 
 def _r6(chk, repo):
+    """batch convention: the expansion maps read their argument only through the shared reshape helper and squeeze what they return; the helpers
+    refuse every shape that is neither `shape` nor `shape + (n,)` and return `x.reshape(shape + (-1,))` (decision table over the two shape tests)"""
+    import itertools
+    from ..cfg import ReachingDefs
+    from ..flow import Expander
+    from ..pattern import norm as pn
+    from .common import canon_fn, method_effects
     for cname in ("KLExpansion", "StepExpansion"):
         ci = repo.cls(f"{GEO}:{cname}")
         for d, helper in (("par2fun", "_reshape_par2fun_input"), ("fun2par", "_reshape_fun2par_input")):
             f = ci.methods[d]
             x = func_params(f)[1]
-            body = [_norm(s) for s in strip_docstring(f.body)]
-            rets = [n for n in ast.walk(f) if isinstance(n, ast.Return)]
-            ok = body[0] == f"{x}=self.{helper}({x})" and len(rets) == 1 and _norm(rets[0].value).endswith(".squeeze()")
-            chk.add("C13-R6", f"{ci.qual}.{d}", ok, site(repo, f), f"input reshaped by {helper}, result squeezed", f"{d} does not use the shared batch convention", f)
+            ex = Expander(canon_fn(repo, ci, f, 1))
+            g = ex.cfg
+            rd = ReachingDefs(g)
+            raw_uses, via_helper = [], 0
+            for n in g.nodes:
+                if n.ast is None or g.entry.id not in set(rd.reaching(n, x)):
+                    continue
+                root = n.ast.iter if n.kind == "iter" else n.ast
+                for sub in ast.walk(root):
+                    if isinstance(sub, ast.Name) and sub.id == x and isinstance(sub.ctx, ast.Load):
+                        par = getattr(sub, "_parent", None)
+                        if isinstance(par, ast.Call) and call_name(par) == f"self.{helper}" and par.args and par.args[0] is sub:
+                            via_helper += 1
+                        else:
+                            raw_uses.append(pn(n.ast)[:60])
+            sq = []
+            for r in g.returns():
+                e = ex.expand(r.ast.value, r) if r.ast.value is not None else None
+                sq.append(isinstance(e, ast.Call) and isinstance(e.func, ast.Attribute) and e.func.attr == "squeeze")
+            ok = via_helper >= 1 and not raw_uses and bool(sq) and all(sq)
+            chk.add("C13-R6", f"{ci.qual}.{d}", ok, site(repo, f), f"input reshaped by {helper}, result squeezed",
+                    f"{d} does not use the shared batch convention (raw uses of the argument: {raw_uses[:2]}; every result squeezed: {bool(sq) and all(sq)})", f)
     cont = repo.cls(f"{GEO}:Continuous")
     for helper, shp in (("_reshape_par2fun_input", "self.par_shape"), ("_reshape_fun2par_input", "self.fun_shape")):
         f = cont.methods[helper]
         x = func_params(f)[1]
-        rets = [n for n in ast.walk(f) if isinstance(n, ast.Return)]
-        ok = len(rets) == 1 and _norm(rets[0].value) == f"{x}.reshape({shp}+(-1,))" and f"{x}.shape!={shp}and{x}.shape[:-1]!={shp}" in _norm(f)
+        bad = []
+        for a_, b_ in itertools.product((True, False), repeat=2):
+            val = {_ct(f"{x}.shape!={shp}"): a_, _ct(f"{x}.shape=={shp}"): not a_, _ct(f"{x}.shape[:-1]!={shp}"): b_, _ct(f"{x}.shape[:-1]=={shp}"): not b_}
+            eff = method_effects(repo, cont, f, valuation=val)
+            for e in eff:
+                if a_ and b_:
+                    if e["kind"] != "raise":
+                        bad.append(f"a shape that is neither {shp} nor {shp}+(n,) is not refused ({e['kind']})")
+                elif not (e["kind"] == "return" and e["ret"] in (_ct(f"{x}.reshape({shp}+(-1,))"), _ct(f"{x}.reshape(({shp})+(-1,))"), _ct(f"{x}.reshape(*{shp},-1)"))):
+                    bad.append(f"[single={not a_}, batch={not b_}] {e['kind']} `{e['ret']}`")
+            if not eff:
+                bad.append("no path")
+        ok = not bad
         chk.add("C13-R6", f"{cont.qual}.{helper}", ok, site(repo, f), "accepts shape or shape+(n,), returns shape+(-1,)", f"{helper} batch convention changed", f)
